@@ -16,6 +16,7 @@ type cloner struct {
 	perm    []int // permutation for the target site (nil with -2: reverse)
 	n       int   // sites seen so far
 	sizes   []int
+	kinds   []string
 	memo    map[cadence.Type]cadence.Type
 	authMem map[*cadence.EntitlementSetAuthorization]*cadence.EntitlementSetAuthorization
 }
@@ -26,6 +27,14 @@ func Sites(v cadence.Value) []int {
 	c := &cloner{target: -1, memo: map[cadence.Type]cadence.Type{}, authMem: map[*cadence.EntitlementSetAuthorization]*cadence.EntitlementSetAuthorization{}}
 	c.value(v)
 	return c.sizes
+}
+
+// SiteKinds returns, for every permutable site of v in traversal order, what
+// it is: "dictionary", "intersection" or "entitlements".
+func SiteKinds(v cadence.Value) []string {
+	c := &cloner{target: -1, memo: map[cadence.Type]cadence.Type{}, authMem: map[*cadence.EntitlementSetAuthorization]*cadence.EntitlementSetAuthorization{}}
+	c.value(v)
+	return c.kinds
 }
 
 // Permute returns a deep copy of v in which the members of site number `site`
@@ -69,10 +78,11 @@ func Perms(n int) [][]int {
 }
 
 // order returns the order to use for the site that is being visited now.
-func (c *cloner) order(n int) []int {
+func (c *cloner) order(n int, kind string) []int {
 	idx := c.n
 	c.n++
 	c.sizes = append(c.sizes, n)
+	c.kinds = append(c.kinds, kind)
 	id := make([]int, n)
 	for i := range id {
 		id[i] = i
@@ -98,7 +108,7 @@ func (c *cloner) auth(a cadence.Authorization) cadence.Authorization {
 	}
 	ids := append([]common.TypeID(nil), set.Entitlements...)
 	if len(ids) >= 2 {
-		ord := c.order(len(ids))
+		ord := c.order(len(ids), "entitlements")
 		for i, j := range ord {
 			ids[i] = set.Entitlements[j]
 		}
@@ -189,7 +199,7 @@ func (c *cloner) typ(t cadence.Type) cadence.Type {
 		c.memo[t] = n
 		ord := []int{0}
 		if len(t.Types) >= 2 {
-			ord = c.order(len(t.Types))
+			ord = c.order(len(t.Types), "intersection")
 		} else if len(t.Types) == 0 {
 			ord = nil
 		}
@@ -309,7 +319,7 @@ func (c *cloner) value(v cadence.Value) cadence.Value {
 			ord[i] = i
 		}
 		if len(v.Pairs) >= 2 {
-			ord = c.order(len(v.Pairs))
+			ord = c.order(len(v.Pairs), "dictionary")
 		}
 		for i, j := range ord {
 			pairs[i] = cadence.KeyValuePair{Key: c.value(v.Pairs[j].Key), Value: c.value(v.Pairs[j].Value)}
